@@ -5,6 +5,7 @@ line, rows beyond the sniff window, float64 samples over the whole magnitude ran
 written with a drawn writer-option set through a drawn output channel of the simulated file system, and read back
 through a drawn input channel / delivery policy with both engines."""
 import copy
+import io
 import math
 import re
 
@@ -129,6 +130,9 @@ class C01(Prop):
               "policy": Policy.draw(st.io).to_json(), "names": g.choice(["plain", "plain", "long", "mixed"]),
               "case": g.choice(["preserve", "preserve", "upper", "lower"]), "nkw": neutral_read_kw(g),
               "nwkw": neutral_write_kw(g, present=tuple(kw) + ("column_fmt", "len_numeric_field", "data_width"))}
+        if g.random() < 0.12:
+            # an earlier write of the same object with another numeric format, handed the very same option objects
+            sc["prior_fmt"] = g.choice(["%.1f", "%.2f", "%.8f", "%.3e"])
         return sc
 
     # ---------------------------------------------------------------------------------------------------------
@@ -183,6 +187,14 @@ class C01(Prop):
             las.append_curve(nm, np.array(cols[j], dtype=float), unit="M" if j == 0 else "U", descr="curve %d" % j)
         fs = SimFS(policy=Policy.from_json(sc["policy"]))
         with fs:
+            if sc.get("prior_fmt"):
+                try:
+                    pk = dict(kw)             # shallow: the column_fmt dict is the caller's one object in both calls
+                    pk["fmt"] = sc["prior_fmt"]
+                    las.write(io.StringIO(), **pk)
+                    res.count("prior-write-with-shared-options")
+                except Exception:
+                    res.count("prior-write-raised")
             try:
                 text = write_via(fs, las, sc["out"], kw, tag="c01")
             except Exception as e:
